@@ -16,6 +16,14 @@
 // to).  Every outcome must be a member of its scenario's allowed set, no search may ask a host twice, and
 // afterwards the replica lists of the configuration must still be the lists of the case (ProxyRead.tla
 // Part 4: ReplicaSetConstant, ShardEachOnce, ShardHonest, ShardSummary).
+//
+// A case of the family "big" (ProxyRead.tla Part 5) carries `big`: the closed-form rule of an all-up search over
+// stores whose result sets are arithmetic generators.  A row of the dimension table carries nothing else: its
+// stores are generated from the rule (pages of up to 100000 ids, never tabulated) and the real
+// Ingestor.Search + full read of the document iterator is held to the rule position by position.  A small
+// instance carries the full tables as well: there the rule evaluator of this driver must reproduce the
+// tabulated answers, fetch requests and the one allowed outcome exactly (else: infra), and the instance is
+// replayed both ways.
 package main
 
 import (
@@ -30,6 +38,7 @@ import (
 	"os"
 	"path/filepath"
 	"sort"
+	"strconv"
 	"strings"
 	"sync"
 	"sync/atomic"
@@ -171,7 +180,10 @@ type Case struct {
 		From   int64  `json:"from"`
 		Hist   string `json:"hist"` // "fresh" | "truncated": retention has removed an older fraction of the store
 	} `json:"store"`
+	Big *BigRule `json:"big"` // family "big": the rule (ProxyRead!BigRule); without `allowed` the case is a row of the table
 }
+
+func (c *Case) bigRow() bool { return c.Big != nil && len(c.Allowed) == 0 }
 
 func (c *Case) realStore() bool { return c.Store.Mode == "hot" || c.Store.Mode == "cold" }
 
@@ -504,6 +516,438 @@ func runSearchOn(ctx context.Context, ing *search.Ingestor, c *Case, r *run, fro
 		o.IDs[i].Host = r.hostOf(ID{o.IDs[i].MID, o.IDs[i].RID})
 	}
 	return o
+}
+
+// ---------------------------------------------------------------- family "big": pages generated from the rule
+
+// Gen is the set of MIDs of one store: {m in first..last : (m - first) % step < run} (ProxyRead!BigGen)
+type Gen struct {
+	Host  string `json:"host"`
+	First int64  `json:"first"`
+	Run   int64  `json:"run"`
+	Step  int64  `json:"step"`
+	Last  int64  `json:"last"`
+}
+
+// BigRule is ProxyRead!BigRule: the page is Len MIDs from First in steps of Step (RID fixed); an id is fetched from
+// the store whose generator holds its MID; its document is that store's document of it, unless the store is
+// BrkHost and more than Brk ids of the page up to and including it are that store's: then it is empty.
+type BigRule struct {
+	N       int64           `json:"n"`
+	Len     int             `json:"len"`
+	First   int64           `json:"first"`
+	Step    int64           `json:"step"`
+	RID     uint64          `json:"rid"`
+	Gens    []Gen           `json:"gens"`
+	Brk     int             `json:"brk"`
+	BrkHost string          `json:"brkhost"`
+	Dims    json.RawMessage `json:"dims"`
+}
+
+func (g *Gen) has(m int64) bool {
+	return m >= g.First && m <= g.Last && g.Step > 0 && (m-g.First)%g.Step < g.Run
+}
+
+// members lists the generator's MIDs in the given order, at most limit of them (what a store answers)
+func (g *Gen) members(asc bool, limit int) []uint64 {
+	out := []uint64{}
+	if g.Step <= 0 || g.Last < g.First {
+		return out
+	}
+	if asc {
+		for st := g.First; st <= g.Last && len(out) < limit; st += g.Step {
+			for m := st; m < st+g.Run && m <= g.Last && len(out) < limit; m++ {
+				out = append(out, uint64(m))
+			}
+		}
+		return out
+	}
+	for st := g.First + (g.Last-g.First)/g.Step*g.Step; st >= g.First && len(out) < limit; st -= g.Step {
+		hi := st + g.Run - 1
+		if hi > g.Last {
+			hi = g.Last
+		}
+		for m := hi; m >= st && len(out) < limit; m-- {
+			out = append(out, uint64(m))
+		}
+	}
+	return out
+}
+
+// owner is the index of the one generator that holds m (-1: none or several - the table is broken)
+func (b *BigRule) owner(m int64) int {
+	o := -1
+	for i := range b.Gens {
+		if b.Gens[i].has(m) {
+			if o >= 0 {
+				return -1
+			}
+			o = i
+		}
+	}
+	return o
+}
+
+func appendBody(buf []byte, mid, rid uint64, host string) []byte {
+	buf = strconv.AppendUint(buf, mid, 10)
+	buf = append(buf, '.')
+	buf = strconv.AppendUint(buf, rid, 10)
+	buf = append(buf, '@')
+	return append(buf, host...)
+}
+
+// bigRun is the state of one replay of a generated scenario
+type bigRun struct {
+	c        *Case
+	query    string
+	mu       sync.Mutex
+	problems []string
+	searched map[string]int
+	reqs     map[string][][]uint64 // host -> the fetch requests it got (MIDs)
+}
+
+func (r *bigRun) problem(f string, a ...any) {
+	r.mu.Lock()
+	if len(r.problems) < 8 {
+		r.problems = append(r.problems, fmt.Sprintf(f, a...))
+	}
+	r.mu.Unlock()
+}
+
+type bigClient struct {
+	pb.StoreApiClient
+	g *Gen
+	r *bigRun
+}
+
+func (f *bigClient) Search(_ context.Context, in *pb.SearchRequest, _ ...grpc.CallOption) (*pb.SearchResponse, error) {
+	r, c := f.r, f.r.c
+	if in.Query != r.query {
+		return nil, status.Error(codes.Canceled, "stale request")
+	}
+	r.mu.Lock()
+	r.searched[f.g.Host]++
+	n := r.searched[f.g.Host]
+	r.mu.Unlock()
+	if n > 1 {
+		r.problem("host %s searched %d times", f.g.Host, n)
+	}
+	wantOrder := pb.Order_ORDER_DESC
+	if c.Req.Order == "asc" {
+		wantOrder = pb.Order_ORDER_ASC
+	}
+	if in.Size != int64(c.Req.Size) || in.Offset != int64(c.Req.Offset) || in.Order != wantOrder {
+		r.problem("host %s got altered request size=%d offset=%d order=%s", f.g.Host, in.Size, in.Offset, in.Order)
+	}
+	mids := f.g.members(c.Req.Order == "asc", c.Req.Size+c.Req.Offset) // the store applies the size+offset cut itself
+	ids := make([]pb.SearchResponse_Id, len(mids))
+	hs := make([]pb.SearchResponse_IdWithHint, len(mids))
+	resp := &pb.SearchResponse{IdSources: make([]*pb.SearchResponse_IdWithHint, len(mids))}
+	for i, m := range mids {
+		ids[i].Mid, ids[i].Rid = m, c.Big.RID
+		hs[i].Id, hs[i].Hint = &ids[i], c.Hint
+		resp.IdSources[i] = &hs[i]
+	}
+	return resp, nil
+}
+
+type bigStream struct {
+	grpc.ClientStream
+	host string
+	rid  uint64
+	mids []uint64
+	brk  int // > 0: the stream fails after this many documents
+	pos  int
+	buf  []byte
+}
+
+func (s *bigStream) Recv() (*pb.BinaryData, error) {
+	if s.brk > 0 && s.pos >= s.brk {
+		return nil, status.Error(codes.Unavailable, "stream broken")
+	}
+	if s.pos >= len(s.mids) {
+		return nil, io.EOF
+	}
+	m := s.mids[s.pos]
+	s.pos++
+	s.buf = appendBody(s.buf[:0], m, s.rid, s.host)
+	d := disk.PackDocBlock(s.buf, nil)
+	d.SetExt1(m)
+	d.SetExt2(s.rid)
+	return &pb.BinaryData{Data: d}, nil
+}
+
+func (f *bigClient) Fetch(_ context.Context, in *pb.FetchRequest, _ ...grpc.CallOption) (pb.StoreApi_FetchClient, error) {
+	r, c := f.r, f.r.c
+	mids := make([]uint64, 0, len(in.Ids))
+	for _, s := range in.Ids {
+		id, err := seq.FromString(s)
+		if err != nil || uint64(id.RID) != c.Big.RID {
+			r.problem("host %s: id %q in a fetch request", f.g.Host, s)
+			return nil, status.Error(codes.InvalidArgument, "bad id")
+		}
+		mids = append(mids, uint64(id.MID))
+	}
+	if len(in.IdsWithHints) != len(in.Ids) {
+		r.problem("host %s: %d ids, %d ids with hints in a fetch request", f.g.Host, len(in.Ids), len(in.IdsWithHints))
+	}
+	for i, h := range in.IdsWithHints {
+		if h.Hint != c.Hint || (i < len(in.Ids) && h.Id != in.Ids[i]) {
+			r.problem("host %s: fetch request entry %d is (%q, hint %q), the id is %q and the search answered hint %q", f.g.Host, i, h.Id, h.Hint, in.Ids[i], c.Hint)
+			break
+		}
+	}
+	r.mu.Lock()
+	r.reqs[f.g.Host] = append(r.reqs[f.g.Host], mids)
+	r.mu.Unlock()
+	st := &bigStream{host: f.g.Host, rid: c.Big.RID, mids: mids}
+	if f.g.Host == c.Big.BrkHost {
+		st.brk = c.Big.Brk
+	}
+	return st, nil
+}
+
+// bigExpect evaluates the rule: fn is called for every position of the page with the MID, the owning generator
+// and whether the document is empty by the rule.  false: the table is not a partition.
+func (b *BigRule) expect(fn func(i int, mid uint64, owner int, empty bool)) bool {
+	rank := make([]int, len(b.Gens))
+	for i := 0; i < b.Len; i++ {
+		m := b.First + int64(i)*b.Step
+		o := b.owner(m)
+		if o < 0 {
+			return false
+		}
+		rank[o]++
+		fn(i, uint64(m), o, b.Brk > 0 && b.Gens[o].Host == b.BrkHost && rank[o] > b.Brk)
+	}
+	return true
+}
+
+func sameMIDs(a, b []uint64) bool {
+	if len(a) != len(b) {
+		return false
+	}
+	for i := range a {
+		if a[i] != b[i] {
+			return false
+		}
+	}
+	return true
+}
+
+// bigSelfCheck: on a small instance the evaluator of the rule must give exactly what TLC tabulated
+func bigSelfCheck(c *Case) error {
+	b := c.Big
+	if len(c.Allowed) != 1 || c.Allowed[0].Kind != "complete" || len(c.Allowed[0].IDs) != b.Len || len(c.Allowed[0].Docs) != b.Len {
+		return fmt.Errorf("the tabulated outcome is not one complete alternative of %d ids", b.Len)
+	}
+	a := &c.Allowed[0]
+	exp := map[string][]ID{}
+	var bad error
+	ok := b.expect(func(i int, mid uint64, o int, empty bool) {
+		h := b.Gens[o].Host
+		exp[h] = append(exp[h], ID{mid, b.RID})
+		body := ""
+		if !empty {
+			body = string(appendBody(nil, mid, b.RID, h))
+		}
+		if a.IDs[i] != (IDH{MID: mid, RID: b.RID, Host: h}) || len(a.Docs[i]) != 1 || string(a.Docs[i][0]) != body {
+			bad = fmt.Errorf("position %d: the rule gives id %d.%d from %s with document %q, the table %v with %v", i, mid, b.RID, h, body, a.IDs[i], a.Docs[i])
+		}
+	})
+	if !ok {
+		return fmt.Errorf("the generators do not partition the page")
+	}
+	if bad != nil {
+		return bad
+	}
+	for i := range b.Gens {
+		g := &b.Gens[i]
+		mids := g.members(c.Req.Order == "asc", c.Req.Size+c.Req.Offset)
+		if len(mids) != len(c.Ans[g.Host]) {
+			return fmt.Errorf("host %s: generated answer has %d ids, the table %d", g.Host, len(mids), len(c.Ans[g.Host]))
+		}
+		for k, m := range mids {
+			if c.Ans[g.Host][k] != (ID{m, b.RID}) {
+				return fmt.Errorf("host %s: generated answer differs from the table at %d", g.Host, k)
+			}
+		}
+	}
+	n := 0
+	for i := range c.Fetch {
+		e := &c.Fetch[i]
+		if !sameIDs(e.Req, exp[e.Host]) {
+			return fmt.Errorf("host %s: the rule's fetch request differs from the table's", e.Host)
+		}
+		n++
+	}
+	if n != len(exp) {
+		return fmt.Errorf("the rule foresees %d fetch requests, the table %d", len(exp), n)
+	}
+	return nil
+}
+
+type bigGot struct {
+	Kind     string   `json:"kind"`
+	Err      string   `json:"err,omitempty"`
+	IDs      int      `json:"ids"`
+	Docs     int      `json:"docs"`
+	Lost     int      `json:"docs_lost,omitempty"`
+	LostAt   int      `json:"first_lost_at,omitempty"`
+	Wrong    int      `json:"docs_wrong,omitempty"`
+	WrongAt  int      `json:"first_wrong_at,omitempty"`
+	Detail   string   `json:"detail,omitempty"`
+	Problems []string `json:"problems,omitempty"`
+}
+
+// runBig generates the stores of the rule, runs the real Ingestor.Search, reads the document iterator to its end and
+// holds the result to the rule.  Returns "" or the class of the disagreement.
+func runBig(c *Case) (cls string, got bigGot) {
+	b := c.Big
+	r := &bigRun{c: c, query: "service:x", searched: map[string]int{}, reqs: map[string][][]uint64{}}
+	clients := map[string]pb.StoreApiClient{}
+	for i := range b.Gens {
+		clients[b.Gens[i].Host] = &bigClient{g: &b.Gens[i], r: r}
+	}
+	defer func() {
+		if p := recover(); p != nil {
+			cls, got.Kind, got.Err = "panic", "error", fmt.Sprint(p)
+		}
+		r.mu.Lock()
+		got.Problems = append([]string(nil), r.problems...)
+		r.mu.Unlock()
+		if cls == "" && len(got.Problems) > 0 {
+			cls = "fake-protocol"
+		}
+	}()
+	ing := search.NewIngestor(searchConfig(c, func(h string) string { return h }), clients)
+	qpr, docs, _, err := ing.Search(context.Background(), &search.SearchRequest{
+		Q: []byte(r.query), From: 1, To: seq.MID(b.N + 1000), Size: c.Req.Size, Offset: c.Req.Offset,
+		ShouldFetch: true, Order: order(c),
+	}, nil)
+	got.Kind = "complete"
+	switch {
+	case qpr == nil && err == nil:
+		got.Kind = "nothing"
+	case qpr == nil:
+		got.Kind, got.Err = "error", err.Error()
+	case errors.Is(err, consts.ErrPartialResponse):
+		got.Kind = "partial"
+	case err != nil:
+		got.Kind, got.Err = "result-with-error", err.Error()
+	case docs == nil:
+		got.Kind = "result-without-iterator"
+	case len(qpr.Errors) > 0:
+		got.Kind = "complete-with-store-errors"
+	}
+	if got.Kind != "complete" {
+		return "outcome-kind", got
+	}
+	got.IDs = len(qpr.IDs)
+	if len(qpr.IDs) != b.Len {
+		got.Detail = fmt.Sprintf("%d ids returned, the page has %d", len(qpr.IDs), b.Len)
+		return "ids", got
+	}
+	expReq := make([][]uint64, len(b.Gens))
+	var buf []byte
+	idsBad, countBad := "", ""
+	ended := false
+	ok := b.expect(func(i int, mid uint64, o int, empty bool) {
+		expReq[o] = append(expReq[o], mid)
+		id := qpr.IDs[i].ID
+		if uint64(id.MID) != mid || uint64(id.RID) != b.RID {
+			if idsBad == "" {
+				idsBad = fmt.Sprintf("position %d: returned id %d.%d, the id of the page is %d.%d", i, id.MID, id.RID, mid, b.RID)
+			}
+			return
+		}
+		if ended {
+			return
+		}
+		d, e := docs.Next()
+		if e != nil {
+			ended = true
+			countBad = fmt.Sprintf("the document iterator ended at position %d of %d: %v", i, b.Len, e)
+			return
+		}
+		got.Docs++
+		buf = buf[:0]
+		if !empty {
+			buf = appendBody(buf, mid, b.RID, b.Gens[o].Host)
+		}
+		switch {
+		case !d.ID.Equal(id):
+			if got.Wrong == 0 {
+				got.WrongAt = i
+				got.Detail = fmt.Sprintf("document %d carries id %d.%d, the returned id is %d.%d", i, d.ID.MID, d.ID.RID, id.MID, id.RID)
+			}
+			got.Wrong++
+		case string(d.Data) == string(buf):
+		case len(d.Data) == 0:
+			if got.Lost == 0 {
+				got.LostAt = i
+			}
+			got.Lost++
+		default:
+			if got.Wrong == 0 {
+				got.WrongAt = i
+				got.Detail = fmt.Sprintf("document %d is %q, the rule says %q", i, d.Data, buf)
+			}
+			got.Wrong++
+		}
+	})
+	if !ok {
+		got.Detail = "the generators do not partition the page"
+		return "infra", got
+	}
+	if idsBad != "" {
+		got.Detail = idsBad
+		return "ids", got
+	}
+	if countBad == "" {
+		if _, e := docs.Next(); e == nil {
+			countBad = fmt.Sprintf("the document iterator delivers more than the %d documents of the page", b.Len)
+		} else if !errors.Is(e, io.EOF) {
+			countBad = fmt.Sprintf("the document iterator fails after the page: %v", e)
+		}
+	}
+	// every id must have been fetched from the store that holds it: one request per store, its ids of the page in page order
+	r.mu.Lock()
+	defer r.mu.Unlock()
+	for o := range b.Gens {
+		h := b.Gens[o].Host
+		rq := r.reqs[h]
+		switch {
+		case len(expReq[o]) == 0 && len(rq) == 0:
+		case len(rq) != 1:
+			got.Detail = fmt.Sprintf("host %s got %d fetch requests, it holds %d ids of the page", h, len(rq), len(expReq[o]))
+			return "ids", got
+		case !sameMIDs(rq[0], expReq[o]):
+			got.Detail = fmt.Sprintf("host %s was asked to fetch %d ids, not its %d ids of the page in page order", h, len(rq[0]), len(expReq[o]))
+			return "ids", got
+		}
+	}
+	switch {
+	case countBad != "":
+		got.Detail = countBad
+		return "doc-count", got
+	case got.Wrong > 0:
+		return "doc-wrong", got
+	case got.Lost > 0:
+		return "doc-lost", got
+	}
+	return "", got
+}
+
+// widthClass names the integer width the page size needs (the family probes the boundaries of these)
+func widthClass(n int) string {
+	switch {
+	case n <= 1<<8:
+		return "le2^8"
+	case n <= 1<<16:
+		return "le2^16"
+	}
+	return "gt2^16"
 }
 
 // ---------------------------------------------------------------- -conc: one Ingestor, many searches at once
@@ -918,6 +1362,9 @@ func hasOpenErr(c *Case) bool {
 
 func nontrivial(c *Case) bool {
 	// more than "everything up": some host misbehaves in search or fetch
+	if c.Big != nil && c.Big.Brk > 0 {
+		return true
+	}
 	for _, b := range c.SB {
 		if b != "ok" {
 			return true
@@ -1177,11 +1624,51 @@ func main() {
 		cases[i] = c
 	}
 	lines = nil
-	var evals, nontriv, altsTotal, altsSeen int64
+	var evals, nontriv, altsTotal, altsSeen, bigRows, bigSmall, bigDocs int64
 	kinds := map[string]int{}
+	bigSem := make(chan struct{}, 8) // a generated page of 100000 ids costs some 50 MB while it is replayed
+	reportBig := func(n int, c *Case, cls string, got bigGot) {
+		hint := 0
+		if c.Hint != "" {
+			hint = 1
+		}
+		brk := 0
+		if c.Big.Brk > 0 {
+			brk = 1
+		}
+		emit(&mu, map[string]any{"n": n, "path": "big", "what": cls,
+			"sig": fmt.Sprintf("%s:big:page=%s:stores=%d:hint=%d:brk=%d", cls, widthClass(c.Big.Len), len(c.Big.Gens), hint, brk),
+			"got": got, "exp": c.Big})
+	}
 	one := func(n int, c *Case) {
 		if c.realStore() {
 			return // replayed serially below
+		}
+		if c.Big != nil {
+			if !c.bigRow() {
+				if err := bigSelfCheck(c); err != nil {
+					emit(&mu, map[string]any{"infra": fmt.Sprintf("case %d: the driver's evaluator of BigRule disagrees with the tables of the specification: %v", n, err)})
+					os.Exit(3)
+				}
+				atomic.AddInt64(&bigSmall, 1)
+			} else {
+				atomic.AddInt64(&bigRows, 1)
+			}
+			bigSem <- struct{}{}
+			cls, got := runBig(c)
+			<-bigSem
+			atomic.AddInt64(&evals, 1)
+			atomic.AddInt64(&bigDocs, int64(got.Docs))
+			if cls == "infra" {
+				emit(&mu, map[string]any{"infra": fmt.Sprintf("case %d: %s", n, got.Detail)})
+				os.Exit(3)
+			}
+			if cls != "" {
+				reportBig(n, c, cls, got)
+			}
+			if c.bigRow() {
+				return
+			}
 		}
 		// scenarios with more than one allowed outcome are races between shard answers: replay them three
 		// times, once undisturbed and once with either half of the shards answering late
@@ -1248,7 +1735,7 @@ func main() {
 		groups := map[string][]int{}
 		var keys []string
 		for n, c := range cases {
-			if c.realStore() {
+			if c.realStore() || c.bigRow() {
 				continue
 			}
 			k := topoKey(c)
@@ -1309,7 +1796,7 @@ func main() {
 			if *progress {
 				emit(&mu, map[string]any{"begin": n, "form": "api"})
 			}
-			if hasOpenErr(c) || c.realStore() {
+			if hasOpenErr(c) || c.realStore() || c.bigRow() {
 				continue // a refused Fetch is not observable as an open error over a real gRPC stream
 			}
 			o, err := env.runAPI(c, n, apiRuns%2 == 1)
@@ -1330,12 +1817,12 @@ func main() {
 	if *statsPath != "" {
 		if fh, err := os.OpenFile(*statsPath, os.O_APPEND|os.O_CREATE|os.O_WRONLY, 0o644); err == nil {
 			b, _ := json.Marshal(map[string]any{"api": apiRuns, "store": storeRuns, "racing_alts": altsTotal, "racing_alts_seen": altsSeen,
-				"conc_groups": cst.groups, "conc_searches": cst.searches})
+				"conc_groups": cst.groups, "conc_searches": cst.searches, "big_rows": bigRows, "big_small": bigSmall, "big_docs": bigDocs})
 			fh.Write(append(b, '\n'))
 			fh.Close()
 		}
 	}
 	emit(&mu, map[string]any{"summary": true, "cases": len(cases), "evals": evals, "nontrivial": nontriv, "corpora": 0,
 		"api": apiRuns, "store": storeRuns, "kinds": kinds, "racing_alts": altsTotal, "racing_alts_seen": altsSeen,
-		"conc_groups": cst.groups, "conc_searches": cst.searches})
+		"conc_groups": cst.groups, "conc_searches": cst.searches, "big_rows": bigRows, "big_small": bigSmall, "big_docs": bigDocs})
 }
